@@ -232,7 +232,11 @@ def rule_gate_shape(ctx, px):
                     mode = c.args[0] if c.args else None
                     okm = False
                     if isinstance(mode, ast.BinOp) and isinstance(mode.op, ast.BitOr):
-                        for side in (mode.left, mode.right):
+                        def _or_operands(e):   # a | b | c
+                            if isinstance(e, ast.BinOp) and isinstance(e.op, ast.BitOr):
+                                return _or_operands(e.left) + _or_operands(e.right)
+                            return [e]
+                        for side in _or_operands(mode):
                             t = ast.unparse(side)
                             if "st_mode" in t:
                                 okm = True
@@ -266,10 +270,7 @@ def rule_gate_shape(ctx, px):
             names = [a.arg for a in h.node.args.args]
             if names and names[0] in ("self", "cls"):
                 names = names[1:]
-            val = None
-            for k in c.keywords:
-                if k.arg == "allow_overwrite":
-                    val = k.value
+            val = pyfront.call_keywords(g.node, c).get("allow_overwrite")
             if val is None and "allow_overwrite" in names and names.index("allow_overwrite") < len(c.args):
                 val = c.args[names.index("allow_overwrite")]
             if val is None:
@@ -285,7 +286,7 @@ def rule_gate_shape(ctx, px):
     for c in ast.walk(gen.node):
         if isinstance(c, ast.Call) and isinstance(c.func, ast.Attribute) and c.func.attr == "generate_all":
             k += 1
-            kw = {x.arg: ast.unparse(x.value) for x in c.keywords}
+            kw = {k_: ast.unparse(v_) for k_, v_ in pyfront.call_keywords(gen.node, c).items()}
             ok = kw.get("allow_overwrite") == "not self._args.no_overwrite"
             ctx.ob(R, gen.module.rel, f"{gen.short} -> {ast.unparse(c.func)}(allow_overwrite)", ok,
                    "" if ok else f"allow_overwrite={kw.get('allow_overwrite')}", c.lineno)
@@ -344,6 +345,27 @@ def rule_mode(ctx, px):
             cur = pm.get(id(cur))
         ctx.ob(R, g.module.rel, f"{g.short} :: file post-processors run outside `with open`", not inside_with,
                "" if not inside_with else "file post-processors run while the output file is still open", loop.lineno)
+        # ... only after the overwrite gate let the run through: not in a finally/except block (which also runs when the gate raised)
+        cur, prev, in_cleanup = pm.get(id(loop)), loop, False
+        while cur is not None and cur is not g.node:
+            if isinstance(cur, ast.Try) and (any(prev is x for x in cur.finalbody) or any(prev is h for h in cur.handlers)):
+                in_cleanup = True
+            if isinstance(cur, ast.ExceptHandler):
+                in_cleanup = True
+            prev, cur = cur, pm.get(id(cur))
+        ctx.ob(R, g.module.rel, f"{g.short} :: file post-processors are not run from a finally/except block", not in_cleanup,
+               "" if not in_cleanup else "the post-processors (SetFileMode, external programs) also run when _handle_overwrite refused the file: a pre-existing "
+               "file's mode/content is changed although overwriting is not allowed", loop.lineno)
+        # ... and on every successful non-dry run: no return precedes them except for a dry run
+        early = []
+        for st, gd in pyfront.walk_guarded(g.node.body):
+            if isinstance(st, ast.Return) and st.lineno < loop.lineno:
+                terms = pyfront.guard_terms(gd)
+                if not any(e.endswith("is_dryrun") and pol for e, pol in terms):
+                    early.append((st.lineno, terms))
+        ctx.ob(R, g.module.rel, f"{g.short} :: no successful run leaves before the file post-processors", not early,
+               "" if not early else f"return at line {early[0][0]} under {early[0][1]}: on that path SetFileMode is never applied, the file keeps the mode an "
+               "earlier run gave it", loop.lineno)
         # every write effect of the function precedes the loop (loop comes after in statement order)
         dom = pyfront.dominating_stmts(g.node, loop) or []
         dom_ids = set()
@@ -366,7 +388,9 @@ def rule_mode(ctx, px):
     # classification of post-processors covers the whole list: for pp in self._post_processors -> line/file/else raise
     for qual in ("CodeGenerator._generate_code", "SupportGenerator.generate_all"):
         g = px.func(GEN_MOD, qual)
-        loops = [n for n in ast.walk(g.node) if isinstance(n, ast.For) and ast.unparse(n.iter) == "self._post_processors"]
+        # the classification loop may live in a private helper of the class that the function calls
+        loops = [n for n in pyfront.walk_with_helpers(px, g) if isinstance(n, ast.For) and ast.unparse(n.iter) in ("self._post_processors", "cls._post_processors")
+                 or (isinstance(n, ast.For) and isinstance(n.iter, ast.Name) and n.iter.id in ("post_processors",))]
         ok = len(loops) == 1
         if ok:
             lp = loops[0]
